@@ -208,6 +208,8 @@ class Exec:
             raise AnalysisBroken("unbound %s at line %s" % (e["ref"]["name"], e.get("l")))
         if k in ("NullPtr", "CXXNullPtrLiteralExpr", "GNUNullExpr"):
             return None
+        if k == "This":
+            return ("thisobj",)
         if k == "ParenExpr":
             return self.ev(kids(e)[0])
         if k in ("MemberExpr", "ArraySubscriptExpr"):
@@ -225,6 +227,8 @@ class Exec:
                 self.uint(new, e)
                 self.store(l, new)
                 return old if e.get("postfix") else new
+            if op == "*" and strip_casts(kids(e)[0])["k"] == "This":
+                return ("thisobj",)
             if op == "*":
                 inner = strip_casts(kids(e)[0])
                 if inner["k"] != "DeclRefExpr" or not isinstance(self.env.get(inner["ref"]["id"]), (ArrPtr, OutPtr)):
